@@ -11,7 +11,8 @@ fromC_rt flat_rt itag_rt atag_rt untagged_rt hasT_ok
 option_in_option_counterexample char_behind_content_counterexample unit_behind_content_counterexample content_roundtrip_examples
 unknown_struct_fields_ignored indefinite_seq_accepted indefinite_map_accepted indefinite_struct_accepted
 de_any_consumes_one_item de_any_on_ser roundtrip_skipped_fields""".split()] + \
-           ["Minicbor.NarrowThm.narrow_widen", "Minicbor.NarrowThm.narrow_widen_fields", "Minicbor.NarrowThm.rneShift_exact"]
+           ["Minicbor.NarrowThm.narrow_widen", "Minicbor.NarrowThm.narrow_widen_fields", "Minicbor.NarrowThm.rneShift_exact",
+            "Minicbor.NarrowThm.narrow_rne", "Minicbor.NarrowThm.f64ToF32_lt"]
 PACKAGES = ["hserde", "hcore"]
 RULE = ("rt <type> <value>: ~100 serde types (std + derived: every Serializer/Deserializer method, externally / internally / adjacently tagged, "
         "untagged, flatten, bytes newtype, unknown-length seq/map, fields skipped at run time by skip_serializing_if in structs and struct variants, "
